@@ -190,7 +190,8 @@ def _single_case(ctx, kind):
     pk = np.argsort(P[3:-3])[::-1][:1] + 3
     # the request is placed one to two lines off the peak, so that the band half-width (3 lines) decides which line is picked
     sel = sorted(float(f[i]) + rng.choice([-2, -1, 1, 2]) * fs / p["nxseg"] for i in pk)
-    tr = rng.choice(["gain", "gain2", "perm", "orth", "time"])
+    ctx._c08_n = getattr(ctx, "_c08_n", 0) + 1
+    tr = ["gain", "gain2", "perm", "orth", "time"][(ctx._c08_n + SINGLE.index(kind)) % 5]
     if tr == "orth" and p["ref"] is not None:
         p["ref"] = None
     return y, fs, p, sel, tr
@@ -203,7 +204,7 @@ def _transform_single(ctx, y, fs, p, sel, tr):
     p2 = dict(p)
     ident = lambda v: v  # noqa: E731
     if tr == "gain":
-        c = 10 ** rng.uniform(-6, 6) * rng.choice([-1, 1])
+        c = rng.choice([1e-6, 1e6, 10 ** rng.uniform(-6, 6)]) * rng.choice([-1, 1])  # the ends of the stated range are always candidates
         return y * c, fs, p2, sel, 1.0, ident, {"gain": c}
     if tr == "gain2":
         c = 2.0 ** rng.randint(-20, 20)
@@ -255,7 +256,7 @@ def _global_order(labels, ref_ind):
 
 def oracle(ctx, scale):
     rng = ctx.rng
-    n = ctx.n(2, 12) * scale
+    n = ctx.n(5, 25) * scale
     for it in range(n):
         for kind in SINGLE:
             y, fs, p, sel, tr = _single_case(ctx, kind)
@@ -292,7 +293,8 @@ def oracle(ctx, scale):
 
             f, P = sps.welch(datasets[0][:, ref_ind[0][0]], fs=fs, nperseg=nx)
             sel = [float(f[int(np.argmax(P[3:-3])) + 3]) + rng.choice([-2, -1, 1, 2]) * fs / nx]
-            tr = rng.choice(["gain", "gain2", "perm", "time"])
+            ctx._c08_m = getattr(ctx, "_c08_m", 0) + 1
+            tr = ["gain", "perm", "time", "gain", "gain2"][(ctx._c08_m + MULTI.index(kind)) % 5]
             inp = {"class": kind, "transformation": tr, "fs": fs, "params": p, "ref_ind": ref_ind, "labels": labels, "case": f"seed{ctx.seed}#{it}"}
             try:
                 base = _run(kind, datasets, fs, p, sel, ref_ind)
@@ -302,7 +304,7 @@ def oracle(ctx, scale):
                 continue
             d2, r2, l2, fs2, sel2, kf = datasets, ref_ind, labels, fs, sel, 1.0
             if tr in ("gain", "gain2"):
-                c = 10 ** rng.uniform(-6, 6) if tr == "gain" else 2.0 ** rng.randint(-20, 20)
+                c = rng.choice([1e-6, 1e6, 10 ** rng.uniform(-6, 6)]) if tr == "gain" else 2.0 ** rng.randint(-20, 20)
                 d2 = [d * c for d in datasets]
                 inp["t"] = {"gain": c}
             elif tr == "perm":
